@@ -3,8 +3,9 @@
 and checks that every test of BASELINE.json's stable_pass in those packages passes."""
 import json, subprocess, sys, os
 pkgs = sys.argv[1:] or ["./..."]
-env = dict(os.environ, GOFLAGS="-mod=mod", GOPROXY="off")
-p = subprocess.run(["go", "test", "-json", "-vet=off", "-count=1", "-timeout", "25m"] + pkgs, cwd="/repo", env=env, stdout=subprocess.PIPE, stderr=subprocess.DEVNULL, text=True)
+env = dict(os.environ, GOPROXY="off")
+env.pop("GOFLAGS", None)
+p = subprocess.run(["go", "test", "-mod=mod", "-json", "-vet=off", "-count=1", "-timeout", "25m"] + pkgs, cwd="/repo", env=env, stdout=subprocess.PIPE, stderr=subprocess.DEVNULL, text=True)
 res = {}
 for line in p.stdout.splitlines():
     try:
